@@ -188,6 +188,17 @@ func (e *fnEnc) libCall(v ssa.Value, fn *ssa.Function, c *ssa.CallCommon, args [
 		used()
 		e.bufRead(v, name, args)
 		return
+	case "(*bytes.Buffer).Reset":
+		used()
+		e.setHeap(bufLenKey, fmt.Sprintf("(store %s %s 0)", e.heap(bufLenKey), args[0]))
+		e.bufClobber(args[0])
+		return
+	case "(*bytes.Buffer).Truncate":
+		used()
+		e.safety("extern-pre", "Buffer.Truncate", fmt.Sprintf("(and (>= %s 0) (<= %s (select %s %s)))", args[1], args[1], e.heap(bufLenKey), args[0]), instr.Pos(), "bytes.Buffer.Truncate panics outside [0, Len]")
+		e.setHeap(bufLenKey, fmt.Sprintf("(store %s %s %s)", e.heap(bufLenKey), args[0], args[1]))
+		e.bufClobber(args[0])
+		return
 	case "(*bytes.Buffer).Len":
 		used()
 		e.setVal(v, fmt.Sprintf("(select %s %s)", e.heap(bufLenKey), args[0]))
@@ -243,10 +254,15 @@ func (e *fnEnc) bufWrite(v ssa.Value, name string, args []string, sig *types.Sig
 	newData := e.vc.fresh("bufdata", "(Array Int Int)")
 	e.vc.assume(fmt.Sprintf("(forall ((j Int)) (! (=> (and (<= 0 j) (< j %s)) (= (select %s j) (select %s j))) :pattern ((select %s j))))", oldLen, newData, oldData, newData))
 	if src != "" {
-		e.vc.assume(fmt.Sprintf("(forall ((j Int)) (! (=> (and (<= 0 j) (< j %s)) (= (select %s (+ %s j)) %s)) :pattern ((select %s (+ %s j)))))", n, newData, oldLen, src, newData, oldLen))
+		srcAt := strings.ReplaceAll(src, " j)", fmt.Sprintf(" (- j %s))", oldLen))
+		if name == "(*bytes.Buffer).WriteByte" {
+			srcAt = src
+		}
+		e.vc.assume(fmt.Sprintf("(forall ((j Int)) (! (=> (and (<= %s j) (< j (+ %s %s))) (= (select %s j) %s)) :pattern ((select %s j))))", oldLen, oldLen, n, newData, srcAt, newData))
 	}
 	e.setHeap(bufLenKey, fmt.Sprintf("(store %s %s (+ %s %s))", lenH, b, oldLen, n))
 	e.setHeap(bufDataKey, fmt.Sprintf("(store %s %s %s)", dataH, b, newData))
+	e.bufClobber(b)
 	rs := e.freshResults(v, sig, hint)
 	if len(rs) >= 1 && name != "(*bytes.Buffer).WriteByte" {
 		e.vc.assume(sEq(rs[0], n))
@@ -266,14 +282,25 @@ func (e *fnEnc) bufRead(v ssa.Value, name string, args []string) {
 		e.setVal(v, fmt.Sprintf("(mk-str %s 0 %s)", data, ln))
 		return
 	}
-	r := e.vc.fresh("bufbytes", "Int")
-	e.vc.assume("(> " + r + " 0)")
+	r := fmt.Sprintf("(select %s %s)", e.heap(bufRefKey), b)
 	ek := e.S().ElemKey(types.Typ[types.Uint8])
 	e.setHeap(ek, fmt.Sprintf("(store %s %s %s)", e.heap(ek), r, data))
 	capn := e.vc.fresh("bufcap", "Int")
 	e.vc.assume(fmt.Sprintf("(>= %s %s)", capn, ln))
 	e.setVal(v, fmt.Sprintf("(mk-slc %s 0 %s %s)", r, ln, capn))
 }
+
+// bufClobber: a slice obtained from Bytes() aliases the buffer's backing array, so any later
+// mutation of the buffer makes its contents unknown (sound over-approximation of both the
+// in-place and the reallocated case).
+func (e *fnEnc) bufClobber(b string) {
+	r := fmt.Sprintf("(select %s %s)", e.heap(bufRefKey), b)
+	ek := e.S().ElemKey(types.Typ[types.Uint8])
+	row := e.vc.fresh("clobbered", "(Array Int Int)")
+	e.setHeap(ek, fmt.Sprintf("(store %s %s %s)", e.heap(ek), r, row))
+}
+
+var bufRefKey = HeapKey{Name: "BUF!ref", Sort: "(Array Int Int)"}
 
 var lockKey = HeapKey{Name: "LOCK!held", Sort: "(Array Int Bool)"}
 
@@ -308,5 +335,7 @@ func (e *fnEnc) initBufIfBuffer(ref string, T types.Type) {
 	if types.TypeString(T, nil) == "bytes.Buffer" {
 		lenH := e.heap(bufLenKey)
 		e.setHeap(bufLenKey, fmt.Sprintf("(store %s %s 0)", lenH, ref))
+		r := e.freshRefRaw("bufarr")
+		e.setHeap(bufRefKey, fmt.Sprintf("(store %s %s %s)", e.heap(bufRefKey), ref, r))
 	}
 }
